@@ -14,12 +14,13 @@ from pbt.core import Case, Violation, sandbox, quiet
 
 ID = 'C09'
 LEVEL = 'exploration'
-TECHNIQUE = ('property-based testing (Hypothesis): the statistics writers (single-file label-column route and file-list + tree route), '
-             'truncate_precomputed_stats_file, merge_precompute_files and read_precomputed_stats vs. an exact-rational / longdouble '
-             'direct computation per cluster x gene, plus the metamorphic relation between re-partitions of the same cells')
+TECHNIQUE = ('property-based testing (Hypothesis) + a deterministic boundary family: the statistics writers (label-column route, single file + row-number tree, '
+             'file list + cell-name tree), truncate_precomputed_stats_file, merge_precompute_files and read_precomputed_stats vs. an exact-rational / longdouble '
+             'direct computation per cluster x gene, plus the metamorphic relation between re-layouts of the same cells')
 RULE = ('cases = generated (taxonomy, per-cell labels incl. unlabelled cells / empty leaves / one-cell clusters, count or log2CPM matrix with rows that hit '
-        'CPM == 0, CPM == 1 and the ge1 band on purpose, 2-3 layouts of the same cells over 1-4 files x encodings x rows_at_a_time x n_processors on either route, '
-        'optional split into datasets for the merge); every written file is compared with direct computation, every order-preserving sub-hierarchy is truncated; '
+        'CPM == 0, CPM == 1, the ge1 band and both sides of it on purpose, 2-3 layouts of the same cells over 1-4 files x encodings x rows_at_a_time x n_processors '
+        'on any of the three routes, optional split into datasets for the merge) plus an enumerated family (every special row kind x dtype x worker count x chunk size); '
+        'every written file is compared with direct computation and with the baseline layout, every order-preserving sub-hierarchy is truncated; '
         'non-trivial = in some layout a cluster has member cells in >=2 chunks or files that are handled by >=2 workers; distinct = distinct spec hash')
 ASSUMPTIONS = ['all files of one run share one gene order (the writers reject anything else)',
                'every cell named by the taxonomy is present in exactly one file (documented requirement of the file-list route)',
@@ -30,7 +31,7 @@ STAT_KEYS = ('sum', 'sumsq', 'gt0', 'gt1', 'ge1')
 
 
 def budget(tier):
-    return {'quick': 384, 'thorough': 9600}[tier]
+    return {'quick': 384, 'thorough': 8000}[tier]
 
 
 def strategy(tier):
@@ -265,7 +266,8 @@ def run_part(d, tag, part, spec, lab, paths, cell_set=None):
                 pfa.precompute_summary_stats_from_h5ad_list_and_tree(
                     data_path_list=list(paths), taxonomy_tree=tt, output_path=out,
                     rows_at_a_time=part['rows_at_a_time'], normalization=norm, tmp_dir=tmp_arg,
-                    n_processors=part['n_processors'], cell_set=cell_set)
+                    n_processors=part['n_processors'], cell_set=cell_set,
+                    copy_data_over=bool(part.get('copy_data_over', False)))
     except Exception as e:  # noqa
         raise Violation('writer_raised', {'part': tag, 'error': f'{type(e).__name__}: {str(e)[:300]}'})
     return out
@@ -488,6 +490,8 @@ def check(spec):
                 if len(ws) >= 2 and len(cs) >= 2:
                     nontrivial = True
             classes.append('route_' + part['route'])
+            if part.get('copy_data_over') and part['route'] == 'tree':
+                classes.append('copy_data_over')
             if len(part['files']) > 1:
                 classes.append('multi_file')
             if part['route'] == 'tree' and any(not (set(f['rows']) & named) for f in part['files']):
